@@ -73,8 +73,11 @@ func runC17(r *vhlib.Run) {
 	cfgs = append(cfgs,
 		scfg{xwCfg{Level: 6, ChunkSize: 64, Index: -1}, 400, "idle-flush-runs-1index", true},
 		scfg{xwCfg{Level: 6, ChunkSize: 32, Index: 16}, 400, "idle-flush-runs-index16", true})
+	// more records than one index block of the default size (4096) would hold, in one index and in many
+	cfgs = append(cfgs, scfg{xwCfg{Level: 6, ChunkSize: 4, Index: -1}, 4 * 4400, "4400chunks-1index", false})
 	if !r.Quick() {
-		cfgs = append(cfgs, scfg{xwCfg{Level: 6, ChunkSize: 64, Index: 8}, 40000, "625chunks", false})
+		cfgs = append(cfgs, scfg{xwCfg{Level: 6, ChunkSize: 64, Index: 8}, 40000, "625chunks", false},
+			scfg{xwCfg{Level: 1, ChunkSize: 3, Index: 64}, 3 * 9000, "9000chunks-index64", false})
 	}
 	for _, sc := range cfgs {
 		data := vhlib.RandBytes(rng, sc.size)
@@ -133,6 +136,10 @@ func runC17(r *vhlib.Run) {
 		if !r.Quick() {
 			nreq = 600
 		}
+		if len(sink) > 30000 {
+			nreq /= 5 // the model is asked with the whole stream and history each time
+		}
+		cur := int64(0) // the Reader's position, for relative seeks
 		var hist []string
 		prevModel := len(openSpans)
 		for q := 0; q < nreq; q++ {
@@ -149,13 +156,25 @@ func runC17(r *vhlib.Run) {
 			}
 			before := len(cs.Ranges)
 			bytesBefore := cs.Bytes
-			xr.Seek(int64(p), io.SeekStart)
+			// the same target position expressed from the start, from the current position (a
+			// forward or backward skip, as archive readers do) or from the end
+			whence, off := io.SeekStart, int64(p)
+			switch rng.Intn(4) {
+			case 0:
+				whence, off = io.SeekCurrent, int64(p)-cur
+			case 1:
+				whence, off = io.SeekEnd, int64(p)-int64(len(plain))
+			}
+			if np, err := xr.Seek(off, whence); err != nil || np != int64(p) {
+				r.Violate("wrong-data", fmt.Sprintf("Seek(%d, %d) = %d, %v; want %d", off, whence, np, err, p), rp)
+			}
 			buf := make([]byte, n)
 			got, _ := io.ReadFull(xr, buf)
+			cur = int64(p) + int64(got)
 			if p <= len(plain) && !bytes.Equal(buf[:got], plain[p:min(p+got, len(plain))]) {
 				r.Violate("wrong-data", fmt.Sprintf("p=%d n=%d", p, n), rp)
 			}
-			hist = append(hist, fmt.Sprintf("s:%d:0", p), fmt.Sprintf("r:%d", n))
+			hist = append(hist, fmt.Sprintf("s:%d:%d", off, whence), fmt.Sprintf("r:%d", n))
 			mresp := m.Ask("x xrlog " + vhlib.Hex(sink) + " " + strings.Join(hist, " "))
 			parts := strings.Split(mresp, "|")
 			if len(parts) < 3 {
